@@ -7,6 +7,8 @@ import (
 	"testing"
 
 	"github.com/HobbyOSs/gosk/verifharness/asm"
+	"github.com/HobbyOSs/gosk/verifharness/sem"
+	"github.com/HobbyOSs/gosk/verifharness/x86asm"
 	"pgregory.net/rapid"
 )
 
@@ -25,7 +27,7 @@ type DataOp struct {
 }
 
 type DataLine struct {
-	Kind string   `json:"k"` // db dw dd resb resbto alignb equ label dir
+	Kind string   `json:"k"` // db dw dd resb resbto alignb equ label dir widen (a Jcc over 200 reserved bytes: forces a second assembly round; N = serial)
 	Ops  []DataOp `json:"ops,omitempty"`
 	N    int64    `json:"n,omitempty"`    // resb count / alignb unit / resbto target address
 	Name string   `json:"name,omitempty"` // label / equ name
@@ -75,6 +77,8 @@ func (c *DataCase) source() string {
 			fmt.Fprintf(&sb, "%s:\n", l.Name)
 		case "dir":
 			fmt.Fprintf(&sb, "%s\n", l.Text)
+		case "widen":
+			fmt.Fprintf(&sb, "\tJNE zzw%d\n\tRESB 200\nzzw%d:\n", l.N, l.N)
 		}
 	}
 	return sb.String()
@@ -83,7 +87,12 @@ func (c *DataCase) source() string {
 // refData is the reference model of the directives, written from the
 // property text. It returns the expected image, or ok=false when the case
 // is not well-formed (negative reservation).
-func refData(c *DataCase) (img []byte, ok bool) {
+func refData(c *DataCase) (img []byte, ok bool) { return refDataOut(c, nil) }
+
+// refDataOut: out is the assembler's output when known. The bytes of a "widen" line's branch are
+// not C05's business: its length is read from out (it must decode as JNE +200 there, else the case
+// is left to C04) and its bytes are copied; without out the usual near form is assumed.
+func refDataOut(c *DataCase, out []byte) (img []byte, ok bool) {
 	org := c.Org
 	if org < 0 {
 		org = 0
@@ -124,6 +133,27 @@ func refData(c *DataCase) (img []byte, ok bool) {
 			img = append(img, make([]byte, pad)...)
 		case "label":
 			labels[l.Name] = addr
+		case "widen":
+			mode := sem.ModeOf(c.Mode)
+			var br []byte
+			if out == nil {
+				br = []byte{0x0f, 0x85, 200, 0}
+				if mode == 32 {
+					br = []byte{0x0f, 0x85, 200, 0, 0, 0}
+				}
+			} else {
+				if len(img) >= len(out) {
+					return nil, false
+				}
+				inst, err := x86asm.Decode(out[len(img):], mode)
+				rel, isRel := inst.Args[0].(x86asm.Rel)
+				if err != nil || !isRel || int64(rel) != 200 || sem.CanonOp(inst.Op.String()) != "JNE" {
+					return nil, false
+				}
+				br = out[len(img) : len(img)+inst.Len]
+			}
+			img = append(img, br...)
+			img = append(img, make([]byte, 200)...)
 		}
 	}
 	return img, true
@@ -149,12 +179,12 @@ func diagnosedC05(r, base *asm.Result) (bool, string) {
 func checkC05(c DataCase) Verdict {
 	src := c.source()
 	v := Verdict{Key: src}
-	want, ok := refData(&c)
+	r := asm.Assemble(src)
+	want, ok := refDataOut(&c, r.Out)
 	if !ok {
-		v.Skip = "ill-formed case (negative reservation)"
+		v.Skip = "ill-formed case (negative reservation, or the context branch is not the expected one)"
 		return v
 	}
-	r := asm.Assemble(src)
 	// baseline: the header plus the program's bracket/GLOBAL/EXTERN lines (each prints content-free warnings)
 	bsrc := c.header()
 	for _, l := range c.Lines {
@@ -202,7 +232,7 @@ func checkC05(c DataCase) Verdict {
 		cc := c
 		for i := range c.Lines {
 			cc.Lines = c.Lines[:i+1]
-			img, _ = refData(&cc)
+			img, _ = refDataOut(&cc, r.Out)
 			if len(img) > at {
 				lineKind = c.Lines[i].Kind
 				break
@@ -299,11 +329,12 @@ func genDataOp(t *rapid.T, dir string, labels []string, first bool) DataOp {
 
 var propC05 = &Prop[DataCase]{
 	ID:   "C05",
-	Rule: "programs of data directives: DB/DW/DD with 1..64 operands mixing numbers (negative, boundary, out of range), constant expressions, strings and single characters (DB), earlier labels and $; RESB n and RESB addr-$; ALIGNB n; interleaved EQU, labels, GLOBAL/EXTERN and bracket directives; ORG aligned and unaligned; oracle: reference model of the directives written from the property text (little-endian low bits, strings byte for byte, n zeros, minimal padding of the address), plus location counter = bytes emitted; non-trivial = accepted and a list of >= 2 operands, a string, an expression or padding; distinct by source text. The enumeration is the complete ALIGNB grid (7 units x 64 residues x 4 origins).",
+	Rule: "programs of data directives: DB/DW/DD with 1..64 operands mixing numbers (negative, boundary, out of range), constant expressions, strings and single characters (DB), earlier labels and $; RESB n and RESB addr-$; ALIGNB n; interleaved EQU, labels, GLOBAL/EXTERN and bracket directives, and up to two out-of-reach Jcc lines that force a second assembly round; ORG aligned and unaligned; oracle: reference model of the directives written from the property text (little-endian low bits, strings byte for byte, n zeros, minimal padding of the address), plus location counter = bytes emitted; non-trivial = accepted and a list of >= 2 operands, a string, an expression or padding; distinct by source text. The enumeration is the complete ALIGNB grid (7 units x 64 residues x 4 origins).",
 	Gen: func(t *rapid.T) DataCase {
 		c := DataCase{Org: rapid.SampledFrom([]int64{-1, 0, 0x100, 0x7c00, 0x7c01, 0xc203, 0xfffc, 0x10000, 0x280000}).Draw(t, "org"), Mode: rapid.SampledFrom([]int{0, 16, 32}).Draw(t, "mode")}
 		used := map[string]bool{}
 		var labels []string
+		nwiden := 0
 		n := rapid.IntRange(1, 10).Draw(t, "nlines")
 		for i := 0; i < n; i++ {
 			switch k := rapid.IntRange(0, 13).Draw(t, "lk"); {
@@ -336,6 +367,9 @@ var propC05 = &Prop[DataCase]{
 				c.Lines = append(c.Lines, DataLine{Kind: "resbto", N: cur + int64(rapid.SampledFrom([]int{0, 1, 2, 17, 254, 510}).Draw(t, "ahead"))})
 			case k == 9:
 				c.Lines = append(c.Lines, DataLine{Kind: "alignb", N: int64(rapid.SampledFrom([]int{1, 2, 4, 8, 16, 32, 64}).Draw(t, "alignb"))})
+			case k == 10 && nwiden < 2 && rapid.Bool().Draw(t, "widen"):
+				c.Lines = append(c.Lines, DataLine{Kind: "widen", N: int64(nwiden)})
+				nwiden++
 			case k == 10:
 				nm := genName(t, "equn", used)
 				txt, _ := genConstExprSmall(t)
